@@ -12,7 +12,7 @@ tvars == <<svars, l>>
 TReset(e) ==
   /\ registered' = AsSet(e.init) /\ pageSize' = e.ps
   /\ idxValid' = FALSE /\ idx' = <<>>
-  /\ tActive' = FALSE /\ tDone' = FALSE /\ tCursor' = 0 /\ tSeen' = <<>>
+  /\ tActive' = FALSE /\ tDone' = FALSE /\ tCursor' = 0 /\ tHidden' = {} /\ tSeen' = <<>>
   /\ tStable' = {} /\ tInit' = {} /\ tMut' = FALSE /\ nMut' = 0 /\ nTrav' = 0
   /\ res' = [kind |-> "none"]
 
@@ -22,10 +22,10 @@ PageMatches(e) ==
   /\ (res'.next # 0) = e.more
   /\ res'.next = e.nextid
 
-\* iterator started from cursor c, run to completion without mutation
-IterFrom(c) ==
-  /\ res' = [kind |-> "iter", items |-> Walk(SortKeys, pageSize, c, Cardinality(Ids) + 1),
-             set |-> {i \in registered : i > c}]
+\* iterator started from cursor c, run to completion without mutation, under the filter H
+IterFrom(c, H) ==
+  /\ res' = [kind |-> "iter", items |-> Walk(SortKeys, pageSize, c, Cardinality(Ids) + 1, H),
+             set |-> {i \in registered : i > c} \ H]
   /\ idxValid' = TRUE /\ idx' = SortKeys
   /\ UNCHANGED <<registered, pageSize, nMut>>
   /\ TravUnchanged
@@ -39,10 +39,10 @@ TStep(e) ==
          /\ (CASE e.op = "add" -> Add(e.id)
                [] e.op = "replace" -> Replace(e.id)
                [] e.op = "remove" -> Remove(e.id))
-    [] e.ev = "start" -> StartTraversal
+    [] e.ev = "start" -> StartTraversal(AsSet(e.hid))
     [] e.ev = "page" -> FetchPage /\ PageMatches(e)
     [] e.ev = "iter" -> /\ e.err = ""
-                        /\ IterFrom(e.pos)
+                        /\ IterFrom(e.pos, AsSet(e.hid))
                         /\ res'.items = e.seq /\ e.man = e.seq
     [] e.ev = "iterrun" -> Stutter
     [] e.ev = "cursor" ->
